@@ -69,7 +69,11 @@ BIG = 1 << 31
 
 def miri_flags(aliasing):
     f = ["-Zmiri-disable-isolation",      # the harness reads the replay file, writes ops/impl, uses temp files
-         "-Zmiri-ignore-leaks"]           # rayon's global pool threads are still parked when main returns
+         "-Zmiri-ignore-leaks",           # rayon's global pool threads are still parked when main returns
+         # Miri perturbs the results of floating-point intrinsics (log2, ln, ...) by default to expose
+         # reliance on their precision; the replies must equal the native ones, and the crate computes
+         # Elias-Fano size estimates and graph geometry (c, segment sizes) in f64
+         "-Zmiri-deterministic-floats"]
     if aliasing == "none":
         # C12 is about out-of-bounds / dangling / uninitialised accesses.  The aliasing models are
         # switched off: Stacked Borrows rejects crossbeam-epoch 0.9 (container_of in Local::element_of,
